@@ -332,6 +332,21 @@ struct session
     }
 };
 
+// growth: make_*_chkpt(istream&) on an empty stream is the default checkpoint (documented by the tests for PLAIN)
+template <typename K, typename E> static void empty_stream_case(char const* ename)
+{
+    typedef typename K::template types<E>::chk C;
+    std::istringstream in;
+    C a = K::template load<E>(in);
+    C b = K::template load<E>(in); // a second time: the stream is still empty
+    K::prepare(a); K::prepare(b);
+    bool threw = false;
+    std::string ta, tb;
+    try { ta = text_of(a); tb = text_of(b); } catch (std::exception const&) { threw = true; }
+    ev("EmptyStream").s("kind", K::name()).s("engine", ename).i("equal", (!threw && ta == tb) ? 1 : 0).i("n", (long long) a.results().size())
+        .i("text", ids().id("t:" + ta)).emit();
+}
+
 template <typename K, typename E>
 static void run_cfg(rng& g, char const* ename, E const& engine, int variant, int dists, T target, bool thorough)
 {
@@ -387,6 +402,9 @@ int main(int argc, char** argv)
     scratch = argv[4];
     if (argc > 5) mode_mask = std::atoi(argv[5]);
     unsigned s = 1 + (unsigned) g.below(100000);
+    empty_stream_case<plain_kind, std::mt19937>("mt19937");
+    empty_stream_case<vegas_kind, std::mt19937>("mt19937");
+    empty_stream_case<mc_kind, std::ranlux48>("ranlux48");
     // kind x variant x distributions x engine; the numeric type is fixed per binary
     run_cfg<plain_kind>(g, "mt19937", std::mt19937(s), 0, 0, T(), thorough);
     run_cfg<plain_kind>(g, "minstd_rand", std::minstd_rand(s), 0, 1, T(), thorough);
